@@ -196,9 +196,9 @@ HYB_RULE = ("random histories on a real hybrid Store (secondary cache scripted, 
             "FIFO or overtaking order): Set/SetWithTTL/Get-with-promotion/loading Get/Delete, evictions handed to the worker, secondary Set failing "
             "in 20-30% of the worker steps, MaxSize 2..15; non-trivial = >= 3 steps; distinct = sha1 of the case")
 HYB_TB = STORE_TB + ["hook H4 (worker schedule points)", "admission probability 1 and a hand-off queue that never fills (256) in the exercised cases"]
-PROPS["C14"] = {"props_files": ["Props/C14.v"], "go_tests": ["TestVerifHybrid", "TestVerifHybridSlow"], "level": "proof",
+PROPS["C14"] = {"props_files": ["Props/C14.v"], "go_tests": ["TestVerifHybrid", "TestVerifHybridSlow", "TestVerifSlowSecondaryDeadline"], "level": "proof",
                 "rule": HYB_RULE + "; plus scenario runs with the real maintenance goroutine and worker in which the secondary Set of an evicted entry is held open while a foreground Set or Delete of the same key is issued",
-                "impl_only_traces": ["hybridslow"], "trusted_base": HYB_TB,
+                "impl_only_traces": ["hybridslow", "slowsecdeadline"], "trusted_base": HYB_TB,
                 "assumptions": ["secondary operations are atomic with respect to the shard lock as in the code (Get/Set/Delete under the shard lock or by the single worker)"],
                 "monitor_tags": ["C14"], "explanation": "hybrid extension of the store model; every read compared with the real hybrid store and with a last-completed-write shadow"}
 PROPS["C15"] = {"props_files": ["Props/C15.v"], "go_tests": ["TestVerifHybrid", "TestVerifHybridSlow"], "impl_only_traces": ["hybridslow"], "level": "proof",
@@ -326,7 +326,8 @@ PROPS["C01"]["rule"] = STORE_RULE + "; plus, for the entry-pool configurations (
 PROPS["C01"]["assumptions"] = ["the theorems cover the entry pool disabled; with the pool enabled the property is exercised by monitors only: a concurrent harness ('never a value of another key') and the deterministic store histories re-run with the pool on (TestVerifStorePool: every value read is the latest write of its key)"]
 
 # store-level part of C04 / C03: ticks and reads of the real Store under the deterministic driver
-PROPS["C04"]["go_tests"] = ["TestVerifWheel", "TestVerifStore", "TestVerifPersist"]
+PROPS["C04"]["go_tests"] = ["TestVerifWheel", "TestVerifStore", "TestVerifPersist", "TestVerifMaintenanceSurvivesBusyLock"]
+PROPS["C04"]["impl_only_traces"] = ["busylock"]
 PROPS["C04"]["env"] = {"VERIF_PERSIST": "restore-only"}
 PROPS["C04"]["project_codes"] = {"store": ["4", "11"]}
 PROPS["C04"]["monitor_tags"] = ["C04"]
@@ -335,9 +336,9 @@ PROPS["C03"]["go_tests"] = ["TestVerifExpiry", "TestVerifStore"]
 PROPS["C03"]["project_codes"] = {"store": ["0", "5", "8"]}
 PROPS["C03"]["monitor_tags"] = ["C03"]
 
-PROPS["C03"]["go_tests"] = ["TestVerifExpiry", "TestVerifStore", "TestVerifTickerStall"]
-PROPS["C03"]["impl_only_traces"] = ["tickerstall"]
-PROPS["C03"]["rule"] += "; plus the real ticker goroutine: the policy lock is held by the harness for 2.5 s of real time while the virtual clock jumps 40 s past a 31 s deadline, then Get must miss"
+PROPS["C03"]["go_tests"] = ["TestVerifExpiry", "TestVerifStore", "TestVerifTickerStall", "TestVerifMaintenanceSurvivesBusyLock", "TestVerifSlowSecondaryDeadline"]
+PROPS["C03"]["impl_only_traces"] = ["tickerstall", "busylock", "slowsecdeadline"]
+PROPS["C03"]["rule"] += "; plus the real ticker goroutine: the policy lock is held by the harness for 2.5 s of real time while the virtual clock jumps 40 s past a 31 s deadline, then Get must miss; maintenance must still reclaim a 1 s entry after the policy lock was busy across two wake-ups; a copy in the secondary tier whose deadline passes during a slow secondary lookup must not be served (hybrid Get and loading Get)"
 
 
 # the public wrappers and builders of the root package (cache.go, builder.go): every cache kind against a plain oracle
